@@ -195,3 +195,32 @@ class FloatProv:
             if not self.is_float(caller, a, depth + 1, seen):
                 return False
         return True
+
+
+def check_sentinels(prog, rep, m, names, rule='M7-sentinel'):
+    """M7: numeric parameters (soil factor, nodata, contrast ...) reach the formula as given: no truthiness test of a
+    parameter with a non-None default (`if not nodata:` / `nodata or x` conflates the legitimate value 0 with
+    'absent') and no rewrite of such a parameter under a test of its own value"""
+    for name in names:
+        pub = m.funcs.get(name)
+        if pub is None:
+            continue
+        defaults = pub.defaults()
+        numeric = [p for p in pub.params if p in defaults and isinstance(defaults[p], ast.Constant) and
+                   isinstance(defaults[p].value, (int, float)) and not isinstance(defaults[p].value, bool)]
+        bad = []
+        for n in pub.own_nodes():
+            tests = []
+            if isinstance(n, (ast.If, ast.IfExp, ast.While)):
+                tests.append(n.test)
+            if isinstance(n, ast.BoolOp):
+                tests.extend(n.values[:-1])
+            for t in tests:
+                t0 = t.operand if isinstance(t, ast.UnaryOp) and isinstance(t.op, ast.Not) else t
+                if isinstance(t0, ast.Name) and t0.id in numeric:
+                    bad.append((n.lineno, 'truthiness test of `%s`' % t0.id))
+        rep.add(rule, pub, name, 'numeric parameters %s are used as given' % numeric, pub.node.lineno, not bad,
+                'a numeric parameter must not be tested for truthiness: 0 is a legitimate value (nodata = 0, soil factor = 0) '
+                'and would be replaced like "absent": %s' % bad, trivial=not numeric)
+
+
